@@ -7,7 +7,7 @@
     loader-once / termination over the resolver state machine are NOT proved yet; those
     parts of the property are decided by the correspondence over generated universes. *)
 From Coq Require Import List NArith ZArith QArith Bool.
-From JS Require Import Str Lit Json Res GoValue Schema Basic Pointer PointerFacts ChildFacts Addressable Uri Resolve.
+From JS Require Import Str Lit Json Res GoValue Schema Basic Pointer PointerFacts ChildFacts Addressable Env Uri Resolve ResolveFacts.
 Import ListNotations.
 
 Theorem C03_pointer_fragment_sound : forall s ptr p c,
@@ -19,6 +19,15 @@ Theorem C03_pointer_fragment_complete : forall s p c,
   subschema_at s p = Some c -> dereferenceJSONPointer s (render (map token p)) = Ok (p, c).
 Proof. exact dereference_complete. Qed.
 Print Assumptions C03_pointer_fragment_complete.
+
+(** the Resolved is rooted at the schema given to Resolve and carries its draft and $schema;
+    documents are only ever appended to the resolver's state, each stored under the root it was
+    loaded for (ResolveFacts.resolve_doc_docs) *)
+Theorem C03_resolved_root : forall re_ok fuel root baseURI loader e calls,
+  Resolve re_ok fuel root baseURI loader = Ok (e, calls) ->
+  node_at e (0%nat, []) = Some root /\ e_draft7 e = detectDraft7 root /\ e_version e = s_schema root.
+Proof. exact Resolve_root. Qed.
+Print Assumptions C03_resolved_root.
 
 (** non-vacuity / regression witnesses on the resolver model: a diamond of loader
     documents with an anchor fragment into a cached document (the former panic O-1), each
